@@ -330,7 +330,22 @@ impl Script {
     }
 
     pub fn remove_codeseparators(&mut self) {
-        self.0 = self.0.clone().into_iter().filter(|x| *x != ScriptBit::OpCode(OpCodes::OP_CODESEPARATOR)).collect();
+        self.0 = Script::remove_codeseparators_from_bits(&self.0);
+    }
+
+    /// Removes every OP_CODESEPARATOR, including the ones inside OP_IF/OP_NOTIF branches
+    fn remove_codeseparators_from_bits(bits: &[ScriptBit]) -> Vec<ScriptBit> {
+        bits.iter()
+            .filter(|x| **x != ScriptBit::OpCode(OpCodes::OP_CODESEPARATOR))
+            .map(|x| match x {
+                ScriptBit::If { code, pass, fail } => ScriptBit::If {
+                    code: *code,
+                    pass: Script::remove_codeseparators_from_bits(pass),
+                    fail: fail.as_ref().map(|f| Script::remove_codeseparators_from_bits(f)),
+                },
+                other => other.clone(),
+            })
+            .collect()
     }
 
     pub fn from_chunks(chunks: Vec<Vec<u8>>) -> Result<Script, BSVErrors> {
